@@ -137,6 +137,23 @@ impl Check for C19 {
         Scn { case, imports, role_module, role_main, host_activity_pm: *rng.pick(&[20u32, 200, 1000]), fuel: 400_000 }
     }
 
+    fn generate_stream(&self, stream: &str, rng: &mut Rng, idx: usize, tier: Tier) -> Scn {
+        if stream != "corpus" {
+            return self.generate(rng, idx, tier);
+        }
+        // author-written programs through all five drivers (no clock / randomness: the C API has no providers)
+        let c = crate::corpus::corpus();
+        let timeish = |e: &crate::corpus::Entry| ["Math.random", "Date", "console.time", "performance"].iter().any(|w| e.src.contains(w) || e.modules.values().any(|m| m.contains(w)));
+        let list: Vec<&crate::corpus::Entry> = c.snippets.iter().chain(c.examples.iter()).filter(|e| !timeish(e)).collect();
+        let e = list[idx % list.len().max(1)];
+        let mut case = e.to_case();
+        if case.module_path.is_none() && !e.src.contains("import ") && rng.chance(0.3) {
+            case.module_path = Some("/app/main.ts".into());
+        }
+        let fuel = if e.modules.is_empty() { 400_000 } else { 1_500_000 };
+        Scn { case, imports: e.modules.clone(), role_module: None, role_main: 0, host_activity_pm: *rng.pick(&[20u32, 200, 1000]), fuel }
+    }
+
     fn shrink(&self, scn: &Scn) -> Vec<Scn> {
         let mut out = Vec::new();
         if scn.role_module.is_some() {
